@@ -83,6 +83,12 @@ def setup() -> None:
 
     T.set_line_filter(line_filter)
     T.install(src, line_events=True, instr_classes=[U.LRUCache])
+    # tokenising runs on a Lexer object shared by every environment with equal options (a lazy generator the
+    # parser pulls from): pre-empted inside it only in "deep" runs (a quarter of the runs)
+    import jinja2.lexer as LX
+
+    T.install_deep([v for k, v in vars(LX.Lexer).items() if callable(v) and k not in ("__init__", "_normalize_newlines")]
+                   + [v for v in vars(LX.TokenStream).values() if callable(v)])
     U.Lock = T.SimLock
     T.neutralise_real_locks()
     _setup_done = True
@@ -155,6 +161,7 @@ def run(tape: Tape) -> Outcome:
             ops.append(("clear_caches",))
     nt = 1 + tape.weighted([3, 3, 2])
     owner = [tape.draw(nt) for _ in ops]
+    deep = tape.draw(4) == 3
 
     datas = [make_data_seed(s) for s in dseeds]
     refs: dict = {}
@@ -180,6 +187,8 @@ def run(tape: Tape) -> Outcome:
         results: list = [None] * len(ops)
         expect: list = [None] * len(ops)
         sched = T.Sched(sched_tape, step_cap=5_000_000, line_level=True, record_regions=record_regions, wall_cap=90.0)
+        sched.deep = deep
+        T.set_deep(deep)
 
         def get_env(ci):
             for e, cfg, sci in envs:
@@ -257,7 +266,8 @@ def run(tape: Tape) -> Outcome:
                 tid = tape.draw(nt, "s")
                 regions = s0.threads[tid].regions or []
                 h = max(horizons[tid], 1)
-                idx = [i for i, r in enumerate(regions) if r in ("lru", "shared", "lock")] if tape.draw(10, "s") < 7 else []
+                want_regions = ("compile",) if (deep and tape.draw(2, "s")) else ("lru", "shared", "lock")
+                idx = [i for i, r in enumerate(regions) if r in want_regions] if tape.draw(10, "s") < 7 else []
                 step = 1 + (idx[tape.draw(len(idx), "s")] if idx else tape.draw(h, "s"))
                 plan.append((tid, step, tape.draw(nt - 1, "s")))
             sched, results, expect = execute(tape, plan, False)
@@ -266,6 +276,7 @@ def run(tape: Tape) -> Outcome:
         out.count("histories")
         out.count("threads_%d" % nt)
         out.count("lexer_cache_capacity_%d" % lex_cap)
+        out.count("deep_runs_preempting_inside_tokenising", 1 if deep else 0)
         out.count("configurations", nconf)
         out.count("preemptions_fired", sched.preempts_fired)
         out.count("lock_contention_blocks", sched.lock_blocks)
